@@ -37,7 +37,9 @@ def gen_spec(rng: random.Random, resources, depth=3, pool=None, allow_fail=True,
         if pool and rng.random() < 0.45:
             return rng.choice(pool)          # a twin of an earlier call
         counter[0] += 1
-        if allow_ctx and rng.random() < 0.5:
+        if allow_ctx and rng.random() < 0.2:
+            s = (f"q{counter[0] % 2}", "cfail", counter[0] % 2, (), opts())
+        elif allow_ctx and rng.random() < 0.5:
             s = (f"x{counter[0] % 2}", "ctx", counter[0] % 2, (), opts())
         elif allow_fail and rng.random() < 0.2:
             s = (f"f{counter[0]}", "raise", f"boom{rng.randint(0, 2)}", (), opts())
